@@ -165,6 +165,18 @@ class Env(dict):
 
 def evaluate(contract, clause, bindings, universe=None, spec_from=None):
     env = Env(contract, bindings, universe, spec_from=spec_from)
+    if "__old__" not in env:
+        # no pre-state copy (a precondition, or a let used by one): old(e) is e in the current state
+        def __old__(src, loc=None):
+            if not loc:
+                return eval(_compile(src), env)
+            tmp = Env.__new__(Env)
+            dict.update(tmp, env)
+            tmp.contract, tmp.universe = env.contract, env.universe
+            dict.update(tmp, {k: v for k, v in loc.items() if not k.startswith("__")})
+            return eval(_compile(src), tmp)
+
+        env["__old__"] = __old__
     return eval(_compile(clause), env)
 
 
@@ -233,6 +245,7 @@ def check_call(contract, fn, args, kwargs=None, argnames=None, universe=None, ch
                 return ("raised", name)
             raise ContractViolation("raises", f"{name} raised but not allowed: {cond}", repr(e))
         raise ContractViolation("raises", f"no {name} escapes", repr(e))
+    old_env["__old__"] = __old__  # old(...) nested inside old(...) is the same pre-state
     post_bind = dict(bindings)
     post_bind["result"] = result
     old_env["result"] = result  # visible (by value) inside old(...)
